@@ -317,8 +317,7 @@ static void do_pop(hist_t * h) {
         fail(h, had ? "C10:errorpop-code" : "C10:errorpop-on-empty-queue", "SCPI_ErrorPop returned code %d, the model queue says %d%s", (int) e->error_code, (int) m.code, had ? "" : " (queue is empty)");
 #if CFG_MALLOC
         /* keep the ledger consistent for the clean-up */
-        if (!h->dead) {}
-        if (e->device_dependent_info) { int i = led_find_live(e->device_dependent_info); if (i >= 0) { led.client = 1; free(e->device_dependent_info); led.client = 0; } }
+        if (e->device_dependent_info) { int i = led_find_live(e->device_dependent_info); if (i >= 0) { led_live[i].owner = OWN_CLIENT; led.client = 1; free(e->device_dependent_info); led.client = 0; } }
 #endif
     } else {
 #if CFG_TEXT
